@@ -505,12 +505,12 @@ func checkC20Steps(p *Prog, r *Report, ru *Rule) {
 			soft := reachQ{From: from, Block: func(i ssa.Instruction) bool {
 				cc := callCommon(i)
 				return nil != cc && isFatalLog(cc)
-			}, Target: func(i ssa.Instruction) bool {
+			}, TargetF: func(i ssa.Instruction, facts nilFacts) bool {
 				ret, ok := i.(*ssa.Return)
 				if !ok {
 					return false
 				}
-				k, isC := constInt(retVal(ret, 0))
+				k, isC := retIntOnPath(retVal(ret, 0), facts)
 				return !isC || 0 == k
 			}}.run()
 			if nil != soft {
@@ -552,6 +552,11 @@ func checkC20Steps(p *Prog, r *Report, ru *Rule) {
 						isGen = false
 					}
 				}
+			}
+			/* Or the generator's body folded into rmain: what it does is
+			Converter.From. */
+			if !isGen && strings.HasSuffix(name, "shellfuncsfile.Converter).From") && call.Parent() == rm {
+				isGen = true
 			}
 			if isGen {
 				found["insertGen"] = true
@@ -825,6 +830,25 @@ func checkC20Restore(p *Prog, r *Report, ru *Rule) {
 	eachInstr(rm, func(i ssa.Instruction) {
 		if d, ok := i.(*ssa.Defer); ok && nil != cleanupV && d.Common().Value == ssa.Value(cleanupV) {
 			def = d
+		}
+		/* Or a deferred literal which calls it on every way through
+		(and then, say, tells the user if the restore failed). */
+		if d, ok := i.(*ssa.Defer); ok && nil != cleanupV && nil == def {
+			if lit, _ := closureOf(d.Common().Value); nil != lit && lit.Parent() == rm && nil != lit.Blocks {
+				calls := func(j ssa.Instruction) bool {
+					cc := callCommon(j)
+					if nil == cc || cc.IsInvoke() || nil != cc.StaticCallee() {
+						return false
+					}
+					if _, isGo := j.(*ssa.Go); isGo {
+						return false
+					}
+					return resolveCell(resolveFree(stripConv(resolveCell(cc.Value), false))) == ssa.Value(cleanupV)
+				}
+				if nil == (reachQ{From: entryLoc(lit), Target: isReturn, Block: calls}).run() {
+					def = d
+				}
+			}
 		}
 	})
 	switch {
